@@ -623,6 +623,9 @@ func (fr *Frame) loopHead(li *loopInfo, st *State, reach Term) *State {
 		fr.touched[comp] = srt
 	}
 	// the frame-as-invariant must hold on entry to the loop
+	if fr.rootFrame().modifiesAll("*") {
+		mods = &modSet{comps: map[string]string{}, all: mods.all, allocates: mods.allocates}
+	}
 	for _, t := range fr.frameTerms(st, mods) {
 		fr.addObl("loop-frame-entry", fmt.Sprintf("loop %d;%s", li.ordinal, t.comp), implies(reach, t.term), "frame of "+t.comp+" holds at loop entry", "", fr.props, false)
 	}
